@@ -72,22 +72,29 @@ def schema_kwargs(o: dict) -> dict:
     return kw
 
 
-def repair_flatten(sch, additional=False):
+def repair_flatten(sch, additional=False, root=None):
     """the schema as it would be without the known flattened-object defect: inside an
     allOf closed by unevaluatedProperties, members do not close themselves"""
+    if root is None:
+        root = sch
     if isinstance(sch, dict):
-        out = {k: repair_flatten(v, additional) for k, v in sch.items()}
+        out = {k: repair_flatten(v, additional, root) for k, v in sch.items()}
         if "allOf" in out and "unevaluatedProperties" in out:
-            # members do not close themselves (nor, for nested flattening, their own allOf)
-            out["allOf"] = [
-                {k: v for k, v in m.items() if k not in ("additionalProperties", "unevaluatedProperties")} if isinstance(m, dict) else m
-                for m in out["allOf"]
-            ]
+            # members do not close themselves (nor, for nested flattening, their own allOf);
+            # a member given by reference (all_refs) is judged as its definition, inlined
+            members = []
+            for m in out["allOf"]:
+                if isinstance(m, dict) and set(m) == {"$ref"} and isinstance(root, dict):
+                    target = root.get("$defs", {}).get(str(m["$ref"]).rsplit("/", 1)[-1])
+                    if isinstance(target, dict):
+                        m = repair_flatten(target, additional, root)
+                members.append({k: v for k, v in m.items() if k not in ("additionalProperties", "unevaluatedProperties")} if isinstance(m, dict) else m)
+            out["allOf"] = members
             if additional:  # ... and the closing keyword follows the additional_properties option
                 del out["unevaluatedProperties"]
         return out
     if isinstance(sch, list):
-        return [repair_flatten(v, additional) for v in sch]
+        return [repair_flatten(v, additional, root) for v in sch]
     return sch
 
 
